@@ -5,7 +5,7 @@ Line-protocol driver for C04 (trace validation against `Model/PhaseLts`).
 
 A case is a block of lines
 ```
-case <idx> <ct|mt> <asis|fixed> e0 <epoch>
+case <idx> <ct|mt> <asis|fixed> e0 <epoch> [strict]
 in <k> <v>                     initial value of input key k
 dv <k> <expr>                  derived key k  (c n | r k | + a b | ? e n a b | S n k…)
 task <t> (R n (isIn k)* | S n (k v)* (c|d))*
@@ -42,6 +42,8 @@ structure Case where
   scripts : List (Nat × List Op) := []
   evs : Array TEv := #[]
   bad : Bool := false
+  /-- `req` hooks are atomic with the enqueue (current-thread runtime, no seeded yields, no gates) -/
+  strict : Bool := false
 
 def parseInt? (s : String) : Option Int :=
   if s.startsWith "-" then (s.drop 1).toString.toNat?.map (fun n => - (Int.ofNat n)) else s.toNat?.map Int.ofNat
@@ -152,16 +154,20 @@ structure SS where
 `write_owned()` that enqueues the task, so the enqueue happens at some point after the emission and before
 the task's next event (its `acq`); any await between the hook and the poll (another hook's pause, a
 pre-emption) lets other tasks get in first.  Such an event is therefore *delayable*: it does not force
-later-emitted events of other tasks to wait for it.  (Every other event is emitted after its step.) -/
-def delayable : Ev → Bool
-  | .rReq _ => true
-  | .wStep _ .req _ => true
+later-emitted events of other tasks to wait for it.  (Every other event is emitted after its step.)
+`strict` (case header token; the harness sets it for the starvation family on the current-thread runtime, where no
+yield is seeded at any pause and no gate is placed): nothing awaits between the hook and the poll and nothing runs
+in parallel, so the `req` takes effect where it is emitted — the FIFO queue order is then observable, and a reader
+admitted in front of a writer that asked first is rejected. -/
+def delayable (strict : Bool) : Ev → Bool
+  | .rReq _ => !strict
+  | .wStep _ .req _ => !strict
   | _ => false
 
 /-- candidates to be fired next, in emission order: every pending event that is the first of its task and
 whose window opened before the first non-delayable pending event closed (that event itself included) -/
-def candidates (pending : List TEv) : List TEv :=
-  let barrier : Option Nat := (pending.find? (fun x => !delayable x.ev)).map (·.hi)
+def candidates (strict : Bool) (pending : List TEv) : List TEv :=
+  let barrier : Option Nat := (pending.find? (fun x => !delayable strict x.ev)).map (·.hi)
   let rec go (seen : List Nat) : List TEv → List TEv
     | [] => []
     | x :: xs =>
@@ -173,17 +179,17 @@ def candidates (pending : List TEv) : List TEv :=
         if ok then x :: go (x.task :: seen) xs else go (x.task :: seen) xs
   go [] pending
 
-partial def lin (c : Cfg) (s : State) (pending : List TEv) (depth : Nat) : StateM SS Bool := do
+partial def lin (c : Cfg) (strict : Bool) (s : State) (pending : List TEv) (depth : Nat) : StateM SS Bool := do
   match pending with
   | [] => return true
   | first :: _ =>
     let st ← get
     if st.budget = 0 then return false
     set { st with budget := st.budget - 1 }
-    for x in candidates pending do
+    for x in candidates strict pending do
       match fire c s x.ev with
       | some s' =>
-        let ok ← lin c s' (pending.filter (fun y => y.hi != x.hi)) (depth + 1)
+        let ok ← lin c strict s' (pending.filter (fun y => y.hi != x.hi)) (depth + 1)
         if ok then return true
       | none => pure ()
     modify fun st => if depth ≥ st.best then { st with best := depth, stuck := first.txt } else st
@@ -205,7 +211,7 @@ def verdict (cs : Case) : String :=
   let c : Cfg := { lockFirst := cs.lockFirst, fair := cs.fair, exec := progExec prog }
   let s0 := init cs.e0 inp scripts
   let pending := (cs.evs.qsort (fun a b => a.hi < b.hi)).toList
-  let (ok, st) := (lin c s0 pending 0).run { budget := 120000, best := 0, stuck := "" }
+  let (ok, st) := (lin c (cs.strict && cs.fair) s0 pending 0).run { budget := 120000, best := 0, stuck := "" }
   if ok then "accepted"
   else if st.budget = 0 then "lin-budget"
   else s!"rejected after {st.best} of {pending.length} events at: {st.stuck}"
@@ -217,6 +223,10 @@ def handle (cs : Case) (line : String) : Case × String :=
     match e0.toNat?, (mode == "ct" || mode == "mt"), (order == "asis" || order == "fixed") with
     | some e0, true, true => ({ idx := idx, fair := mode == "ct", lockFirst := order == "fixed", e0 := e0 }, "ok")
     | _, _, _ => ({ bad := true }, "bad-op")
+  | ["case", idx, "ct", order, "e0", e0, "strict"] =>
+    match e0.toNat?, (order == "asis" || order == "fixed") with
+    | some e0, true => ({ idx := idx, fair := true, lockFirst := order == "fixed", e0 := e0, strict := true }, "ok")
+    | _, _ => ({ bad := true }, "bad-op")
   | ["in", k, v] =>
     match k.toNat?, parseInt? v with
     | some k, some v => ({ cs with inputs := (k, v) :: cs.inputs }, "ok")
